@@ -107,7 +107,10 @@ func (r *snapReader) Read(p []byte) (int, error) {
 			"rec": sh.Macros.Recording(),
 		}
 		if r.sc.SelPos {
-			pb, pe := sh.Selection().Pos()
+			// on a copy: Pos() stores the clamped range back into the selection, and observing must not
+			// change the shell (display.Engine passes a copy to its highlighter in the same way)
+			selCopy := *sh.Selection()
+			pb, pe := selCopy.Pos()
 			ev["selpos"] = []int{pb, pe}
 		}
 		if r.sc.CompSnap {
